@@ -18,6 +18,12 @@ import warnings
 
 def parse_cases(spec):
     """'a:b:step' or comma separated explicit indices 'i,j,k'."""
+    if spec.startswith("mix:"):
+        # shard k of W over range(N), mixed so that every worker sees every residue
+        # class of i (workloads dispatch their case kinds on i % m)
+        _, k, n, w = spec.split(":")
+        k, n, w = int(k), int(n), int(w)
+        return [i for i in range(n) if (i + i // w) % w == k]
     if ":" in spec:
         a, b, s = (int(x) for x in spec.split(":"))
         return range(a, b, s)
@@ -55,6 +61,9 @@ def main(argv=None):
         return 3
 
     rec = core.set_recorder(core.Recorder(args.prop, args.tier, args.seed))
+    from dfmon import verdict
+
+    rec.classifier = verdict.make_classifier()
     wl = importlib.import_module(f"workloads.{args.prop}")
 
     from dfmon import anchors, attach
